@@ -98,4 +98,49 @@ def c04_3(c: Ctx) -> None:
         c.fail(u, f'return {at} reachable with the completion signal not known set, via {via}', 'in-handler await can return a child that is still pending (the bounded polling loop gives up)' if inline else 'await can return an event that is not complete', node=rn.ast, witness=c.path(g.entry, p))
 
 
+
+@ob('C04.4', 'DOM', 'the inline loop looks at the queue of every bus on every round: a bus is skipped only if it does not exist any more, has no queue or is not running — '
+    'a descendant of the awaited event may sit on any bus, and while the handler holds the lock nobody else can process it')
+def c04_4(c: Ctx) -> None:
+    u = await_coro(c)
+    g = c.cfg(u)
+    br = inline_branch(c, u)
+    loops = [n for n in own_nodes(u.node) if isinstance(n, (ast.For, ast.AsyncFor)) and 'all_instances' in U(n.iter) and q.lexically_in(n, br, 'body')]
+    if len(loops) != 1 or not isinstance(loops[0].target, ast.Name):
+        c.fail(u, f'{len(loops)} loops over EventBus.all_instances on the inline branch', 'the in-handler await does not look at every bus: a child dispatched to another bus can never be completed while the handler waits (deadlock / pending child)')
+        return
+    loop = loops[0]
+    bus = loop.target.id
+    if U(loop.iter) not in ('list(EventBus.all_instances)', 'EventBus.all_instances', 'tuple(EventBus.all_instances)'):
+        c.fail(u, f'bus loop iterates {U(loop.iter)[:60]}', 'the in-handler await drains only a subset of the buses', node=loop)
+    head = g.nodes_of(loop, ('for',))[0]
+    attempts = [n for n in g.live_nodes() if n.kind == 'if' and f'{bus}.event_queue.qsize()' in U(n.ast.test)] or [n for n in g.live_nodes() if q.node_calls(n, 'get_nowait')]
+    c.floor(len(attempts), 1, 'dequeue attempt in the bus loop')
+    aid = {n.id for n in attempts}
+    allowed = {f'not {bus}', f'not {bus}.event_queue', f'not {bus}._is_running', f'{bus} is None', f'{bus}.event_queue is None'}
+    from sa.cfg import search
+
+    def allowed_skip(n, e) -> bool:
+        if n.kind != 'if' or e.label != 'true':
+            return False
+        t = n.ast.test
+        dis = t.values if isinstance(t, ast.BoolOp) and isinstance(t.op, ast.Or) else [t]
+        return all(U(x) in allowed for x in dis)
+
+    p = search([(head, ())], is_target=lambda n, d: n is head, is_barrier=lambda n, d: n.id in aid,
+               edge_ok=lambda n, e, d: None if (e.is_exc or (n is head and e.label != 'iter') or allowed_skip(n, e)) else d)
+    if p is None:
+        c.ok(where(u, loop), f'every running bus with a queue gets a dequeue attempt on every round (skips only: {sorted(allowed)[:3]}…)')
+    else:
+        cond = next((s_.node.text(80) for s_ in p if s_.node.kind == 'if'), '?')
+        c.fail(u, f'the bus loop can skip a running bus with a queue: `{cond}`', 'a descendant of the awaited event queued on a skipped bus is never processed while the handler waits: the await gives up and returns the child incomplete', node=loop, witness=c.path(head, p))
+
+
+@ob('C04.5', 'WMW/DOM/SHAPE', 'the completion signal the await relies on is set only when all results are terminal and all descendants are complete (same obligation as C03.1)')
+def c04_5(c: Ctx) -> None:
+    from .c03 import c03_1
+
+    c03_1(c)
+
+
 OBLIGATIONS = ob.obs
